@@ -44,6 +44,9 @@ def configs(tier):
                 out.append({'step': 'fit_real', 'method': method, 'rows': rows, 'n': n, 'centre': centre})
         for hist in ('fit_edit_fit', 'load_fit', 'fitA_fitB') + (('fit_recompute_fit',) if method == 'cycles' else ()):
             out.append({'step': 'history', 'hist': hist, 'method': method, 'rows': 2, 'n': 6})
+    # the object must forward find_extrema_kwargs exactly as the functional API takes them (real cyclepoint search)
+    for fek in ('n_seconds', 'boundary_only', 'n_cycles_nopad'):
+        out.append({'step': 'fit_fek', 'fek': fek, 'n': 6 if fek != 'n_cycles_nopad' else 8})
     out.append({'step': 'recompute_cut'})
     for rows in ([3, 4] if q else [3, 4, 5]):
         out.append({'step': 'recompute_real', 'rows': rows})
@@ -54,6 +57,8 @@ def configs(tier):
 
 
 def cost(cfg):
+    if cfg['step'] == 'fit_fek':
+        return 5000
     return 30 if cfg['step'] in ('fit_real', 'history', 'recompute_real') else 1
 
 
@@ -295,6 +300,35 @@ def run(ctx, cfg):
             ctx.fail(exc_label(e))
         finally:
             sh.compute_cyclepoints = saved
+        return
+    if step == 'fit_fek':
+        n = cfg['n']
+        fek = {'n_seconds': {'filter_kwargs': {'n_seconds': 0.5}}, 'boundary_only': {'boundary': 0},
+               'n_cycles_nopad': {'filter_kwargs': {'n_cycles': 4}, 'pad': False}}[cfg['fek']]
+        L = 0 if cfg['fek'] == 'n_cycles_nopad' else 1
+        x = [ctx.real('x%d' % i) for i in range(n)]
+        pipe.Stubs(ctx, L, relate=('same',), min_halfwaves=2)
+        thr = {'min_n_cycles': 1}
+        import copy
+        ref, ref_exc = None, None
+        try:
+            ref = ff.compute_features(np.array(list(x), dtype=float), 500.0, (8.0, 12.0), threshold_kwargs=dict(thr),
+                                      find_extrema_kwargs=copy.deepcopy(fek))
+        except Exception as e:
+            ref_exc = e
+        bm = fit.Bycycle(thresholds=dict(thr), find_extrema_kwargs=copy.deepcopy(fek))
+        try:
+            bm.fit(np.array(list(x), dtype=float), 500.0, (8.0, 12.0))
+        except Exception as e:
+            if ref_exc is None:
+                ctx.fail('Bycycle.fit raises where compute_features with the same settings returns a table: ' + exc_label(e))
+            else:
+                ctx.prove(type(e) is type(ref_exc), 'Bycycle.fit fails like compute_features with the same settings')
+            return
+        if ref_exc is not None:
+            ctx.fail('Bycycle.fit returns a table where compute_features with the same settings raises')
+            return
+        tables_equal(ctx, bm.df_features, ref, 'df_features equals compute_features with the same find_extrema_kwargs')
         return
     if step == 'recompute_cut':
         thr, exp = settings(ctx, 'cycles', 0, True)
